@@ -50,7 +50,7 @@ theorem wakeStep_sim_try (s : St) (hp : s.phase = .tryBlock) :
   cases hm : s.mustCancel
   · cases ha : s.armed with
     | none => simp [hp]
-    | some a => cases a <;> simp
+    | some a => cases a <;> simp <;> split <;> simp
   · simp
 
 theorem wakeStep_stopped (s : St) (w : Wake) (h : Stopped s) : Stopped (wakeStep s w).1 := by
@@ -102,8 +102,25 @@ theorem step_stopped (s : St) (op : Op) (h : Stopped s) : Stopped (step s op).1 
       have hph : s.phase = .notStarted ∨ s.phase = .tryBlock := by
         cases hp : s.phase <;> simp_all [Stopped]
       rcases hph with hp | hp
-      · cases i <;> simp [step, hp, hs, firstOf] at hq ⊢
+      · cases i with
+        | some id => simp [step, hp, hs, firstOf] at hq ⊢
+        | none => cases hf : s.earlyFail <;> simp [step, hp, hs, hf, firstOf] at hq ⊢
       · simp [step, hp] at hq
+  | handlerErr id f =>
+    intro hq
+    rw [step_error]
+    cases hs : s.error with
+    | some e => simp [firstOf]
+    | none =>
+      have hph : s.phase = .notStarted ∨ s.phase = .tryBlock := by
+        cases hp : s.phase <;> simp_all [Stopped]
+      rcases hph with hp | hp <;> cases hf : (Fault.inHandler f).fatal <;>
+        simp [step, hp, hs, hf, St.ready, St.abort] at hq ⊢
+  | earlyInitFail id =>
+    simp only [step]
+    split
+    · simpa [Stopped] using h
+    · exact h
   | supTrigger i id => cases id <;> simpa [step, Stopped] using h
   | nestedUnknown c =>
     simp only [step]
@@ -180,9 +197,39 @@ theorem harmless_outcomes_reported_only (s : St) :
     (step s .unknownEvt).1 = s ∧ (step s .unknownEvt).2.dels = [] := by
   simp [step]
 
+/-- **classification, over the exception families**: `SBlock.event` calls abort() -- the fault is fatal -- unless the
+    exception says "unknown event type" (EdzedUnknownEvent) or comes from the call itself (wrong parameters:
+    a traceback of one level); total in the family and the depth -/
+theorem classification_total (x : Family × Bool) :
+    fatalSeen x = true ↔ ¬ (x.1 = .unknownEvent ∨ x.2 = false) := by
+  obtain ⟨f, d⟩ := x
+  cases f <;> cases d <;> simp [fatalSeen]
+
+/-- which faults are errors *inside* a handler according to the property text.  Reading chosen: a handler that
+    raises EdzedUnknownEvent ITSELF declares the event unknown (that is how `_event()` reports unknown types);
+    an EdzedUnknownEvent that comes from ANOTHER event sent by the handler is an error inside the handler -/
+def Fault.documentedFatal : Fault → Bool
+  | .inHandler f => f != .unknownEvent
+  | .wrongParams => false
+  | .unknownType => false
+  | .nested => true
+
+/- Full statement (NOT provable, the code violates it for `nested`): ∀ flt, flt.fatal = flt.documentedFatal.
+   See `nested_unknown_event_not_fatal` and known_findings.json. -/
+/-- every exception family raised inside a handler (generic, EdzedCircuitError, EdzedInvalidState, TypeError) is
+    fatal, wrong parameters and unknown types are not: the code's classification is the documented one -/
+theorem classification_by_fault_partial (flt : Fault) (h : flt ≠ .nested) :
+    flt.fatal = flt.documentedFatal := by
+  cases flt with
+  | inHandler f => cases f <;> rfl
+  | wrongParams => rfl
+  | unknownType => rfl
+  | nested => exact absurd rfl h
+
 /-- which external-event operations are errors *inside* a handler according to the property text -/
 def documentedFatal : Op → Bool
-  | .handlerErr _ | .ctrlAbort _ | .ctrlShutdown | .nestedUnknown _ => true
+  | .handlerErr _ f => (Fault.inHandler f).documentedFatal
+  | .ctrlAbort _ | .ctrlShutdown | .nestedUnknown _ => true
   | _ => false
 
 /- Full statement (NOT provable, the code violates it for `nestedUnknown`):
@@ -191,10 +238,15 @@ def documentedFatal : Op → Bool
    or an FSM entry action sending to its own block) passes through `except EdzedUnknownEvent: raise`
    without abort(); see known_findings.json.  Proved: the statement for every other external event. -/
 theorem classification_partial (s : St) (h : s.ready = true) (op : Op)
-    (hext : op = .paramErr ∨ op = .unknownEvt ∨ (∃ i, op = .handlerErr i) ∨ (∃ i, op = .ctrlAbort i) ∨
+    (hext : op = .paramErr ∨ op = .unknownEvt ∨ (∃ i f, op = .handlerErr i f) ∨ (∃ i, op = .ctrlAbort i) ∨
             op = .ctrlShutdown) :
     ((step s op).2.dels ≠ [] ↔ documentedFatal op = true) := by
-  rcases hext with rfl | rfl | ⟨i, rfl⟩ | ⟨i, rfl⟩ | rfl <;> simp [step, h, documentedFatal]
+  rcases hext with rfl | rfl | ⟨i, f, rfl⟩ | ⟨i, rfl⟩ | rfl
+  · simp [step, h, documentedFatal]
+  · simp [step, h, documentedFatal]
+  · cases f <;> simp [step, h, documentedFatal, Fault.documentedFatal, Fault.fatal, fatalSeen, Fault.seen]
+  · simp [step, h, documentedFatal]
+  · simp [step, h, documentedFatal]
 
 /-- the counter-example that blocks the full statement (replayed on the implementation by the check) -/
 theorem nested_unknown_event_not_fatal :
@@ -202,15 +254,37 @@ theorem nested_unknown_event_not_fatal :
     (step { phase := .tryBlock } (.nestedUnknown c)).2.dels = [] ∧
     (step { phase := .tryBlock } (.nestedUnknown c)).1.ready = true := by decide
 
-/-- an exception inside an event handler terminates the simulation even though the caller gets
-    (and may swallow) the exception: the register is written before the exception reaches the caller -/
-theorem handler_error_is_fatal (s : St) (h : s.ready = true) (id : Nat) :
-    (step s (.handlerErr id)).1.error = some (.wrapped id) ∧
-    (step s (.handlerErr id)).2.reply = .raised (.exc id) ∧
-    (step s (.handlerErr id)).1.ready = false := by
+/-- an exception of ANY family but EdzedUnknownEvent inside an event handler terminates the simulation even though
+    the caller gets (and may swallow) the exception: the register is written before the exception reaches the caller -/
+theorem handler_error_is_fatal (s : St) (h : s.ready = true) (id : Nat) (f : Family) (hf : f ≠ .unknownEvent) :
+    (step s (.handlerErr id f)).1.error = some (.wrapped id) ∧
+    (step s (.handlerErr id f)).2.reply = .raised (.exc id) ∧
+    (step s (.handlerErr id f)).1.ready = false := by
   simp [St.ready] at h
   obtain ⟨hp, he⟩ := h
-  simp [step, hp, abort_error, he, firstOf, St.ready]
+  cases f <;> simp_all [step, abort_error, firstOf, St.ready, Fault.fatal, fatalSeen, Fault.seen]
+
+/-- … inside the simulation task as well (an `on_output` event of a block evaluated by the simulator): the wrapped
+    error is recorded first, then the exception ends the task -/
+theorem handler_error_in_simtask_is_fatal (s : St) (hp : s.phase = .tryBlock) (hc : s.mustCancel = false)
+    (he : s.error = none) (id : Nat) (f : Family) (ha : s.armed = some (.calcHandler id f)) :
+    (wakeStep s .sim).1.error = some (if f = .unknownEvent then .exc id else .wrapped id) ∧
+    (wakeStep s .sim).1.phase = .sleep0 := by
+  cases f <;> simp [wakeStep, hp, hc, ha, caught_error, abort_error, he, firstOf, Fault.fatal, fatalSeen, Fault.seen]
+
+/-- a synchronous initialisation routine that fails EARLY (reached through an event during the start-up, the
+    sender swallows the exception) still makes the start fail: the failed step is not attempted again, the block
+    is found uninitialised, and that error is never replaced -/
+theorem early_init_failure_is_fatal (s : St) (hp : s.phase = .notStarted) (he : s.error = none) (id : Nat)
+    (ops : List Op) :
+    let s1 := (step s (.earlyInitFail id)).1
+    let s2 := (step s1 (.start none)).1
+    (step s (.earlyInitFail id)).2.reply = .raised (.exc id) ∧ s1.error = none ∧
+    s2.phase = .sleep0 ∧ s2.error = some .notInit ∧ (final s2 ops).error = some .notInit := by
+  have h2 : (step (step s (.earlyInitFail id)).1 (.start none)).1.error = some .notInit := by
+    rw [step_error]; simp [step, hp, he, firstOf]
+  refine ⟨by simp [step, hp, he], by simp [step, hp, he], ?_, h2, error_never_replaced _ _ h2 ops⟩
+  simp [step, hp, he]
 
 /-- an output calculation that raises ends the simulation with that exception -/
 theorem calc_error_is_fatal (s : St) (hp : s.phase = .tryBlock) (hc : s.mustCancel = false)
@@ -234,9 +308,9 @@ theorem control_events (s : St) (h : s.ready = true) (id : Nat) :
 /-- non-vacuity: a handler error racing with abort() and a shutdown in the same instant —
     the first one delivered is reported by everything -/
 example :
-    let s := final {} [.start none, .handlerErr 1, .abortCall (.exc 2), .shutdownTask, .tick, .tick, .tick]
+    let s := final {} [.start none, .handlerErr 1 .circuitError, .abortCall (.exc 2), .shutdownTask, .tick, .tick, .tick]
     s.error = some (.wrapped 1) ∧ s.phase = .done ∧ shutdownRaises s = some (.wrapped 1) ∧
-    deliveries {} [.start none, .handlerErr 1, .abortCall (.exc 2), .shutdownTask, .tick, .tick, .tick]
+    deliveries {} [.start none, .handlerErr 1 .circuitError, .abortCall (.exc 2), .shutdownTask, .tick, .tick, .tick]
       = [.wrapped 1, .exc 2, .cancelled 0, .cancelled 1] := by decide
 
 example :
@@ -668,12 +742,12 @@ and never replaces a recorded error.
 theorem translated_errreg_run_forever_is_model_partial (sc : RfScript) (s0 : St)
     (hp : s0.phase = .notStarted) (he : s0.error = none) (hi : sc.envInit = id)
     (hs : ∀ s, (sc.envSim s).phase = s.phase)
-    (ht : sc.initErr = none → (thrownAt (sc.envSim (step s0 (.start none)).1)).2.isSome = true)
+    (ht : sc.initErr = none → s0.earlyFail = false → (thrownAt (sc.envSim (step s0 (.start none)).1)).2.isSome = true)
     (hy : ∀ s, (s.error.isSome → (sc.envYield s).error = s.error) ∧ (sc.envYield s).phase = s.phase)
     (hz : ∀ s, (s.error.isSome → (sc.envStop s).error = s.error) ∧ (sc.envStop s).phase = s.phase) :
     TrL.runForever (erfPrims sc) { st := s0 } =
-      ({ st := rfModel sc s0, started := [0], startOk := true, initDone := some sc.initErr.isNone,
-         simulated := sc.initErr.isNone },
+      ({ st := rfModel sc s0, started := [0], startOk := true, initDone := some (sc.initErr.isNone && !s0.earlyFail),
+         simulated := (sc.initErr.isNone && !s0.earlyFail) },
        match runForeverRaises (rfModel sc s0) with
        | some e => .raise (.err e)
        | none => .raise .typeError) ∧
@@ -695,19 +769,30 @@ theorem translated_errreg_run_forever_is_model_partial (sc : RfScript) (s0 : St)
     simp [hp, he, hi, hm, hc, St.caught, runForeverRaises, bind_apply, get_apply, pure_apply, raise_apply, tryExcept_apply,
       TrL.runForever_for1, hye, hyp, hze, hzp, hwe, hwp, hfe]
   | none =>
-    have ht' := ht hie
-    rw [start_ok s0 hp he] at ht'
+    cases hef : s0.earlyFail with
+    | true =>
+      -- the block whose step failed early is found uninitialised by `_init_sblocks_sync_2`
+      unfold rfModel TrL.runForever
+      simp only [hie]
+      rw [start_early_fail s0 hp he hef]
+      by_cases hm : (sc.envYield ({ s0 with phase := .tryBlock, error := some .notInit, runWaiting := s0.runMode, earlyFail := true } : St).leaveTry).mustCancel = true <;>
+      by_cases hc : (sc.envYield ({ s0 with phase := .tryBlock, error := some .notInit, runWaiting := s0.runMode, earlyFail := true } : St).leaveTry).slowCleanup = true <;>
+      simp [hp, he, hi, hie, hef, hm, hc, St.caught, runForeverRaises, bind_apply, get_apply, pure_apply, raise_apply, tryExcept_apply,
+        TrL.runForever_for1, hye, hyp, hze, hzp, hwe, hwp, hfe]
+    | false =>
+    have ht' := ht hie hef
+    rw [start_ok s0 hp he hef] at ht'
     unfold rfModel TrL.runForever
     simp only [hie]
-    rw [start_ok s0 hp he]
+    rw [start_ok s0 hp he hef]
     have hS : ({ s0 with phase := .tryBlock, runWaiting := s0.runMode } : St) =
-        { s0 with phase := .tryBlock, error := none, runWaiting := s0.runMode } := by rw [← he]
+        { s0 with phase := .tryBlock, error := none, runWaiting := s0.runMode, earlyFail := false } := by rw [← he, ← hef]
     rw [hS] at ht' ⊢
-    have hph : (sc.envSim { s0 with phase := .tryBlock, error := none, runWaiting := s0.runMode }).phase = .tryBlock := by
+    have hph : (sc.envSim { s0 with phase := .tryBlock, error := none, runWaiting := s0.runMode, earlyFail := false }).phase = .tryBlock := by
       rw [hs]
-    simp only [show (({ s0 with phase := .tryBlock, error := none, runWaiting := s0.runMode } : St).phase == Phase.tryBlock) = true from rfl,
+    simp only [show (({ s0 with phase := .tryBlock, error := none, runWaiting := s0.runMode, earlyFail := false } : St).phase == Phase.tryBlock) = true from rfl,
       if_true, wakeStep_sim_try_eq _ hph]
-    obtain ⟨T, hT⟩ : ∃ T, T = thrownAt (sc.envSim { s0 with phase := .tryBlock, error := none, runWaiting := s0.runMode }) := ⟨_, rfl⟩
+    obtain ⟨T, hT⟩ : ∃ T, T = thrownAt (sc.envSim { s0 with phase := .tryBlock, error := none, runWaiting := s0.runMode, earlyFail := false }) := ⟨_, rfl⟩
     rw [← hT] at ht' ⊢
     obtain ⟨T1, T2⟩ := T
     cases T2 with
@@ -719,13 +804,13 @@ theorem translated_errreg_run_forever_is_model_partial (sc : RfScript) (s0 : St)
         by_cases hm : (sc.envYield ({ T1 with error := some e } : St).leaveTry).mustCancel = true <;>
         by_cases hc : (sc.envYield ({ T1 with error := some e } : St).leaveTry).slowCleanup = true <;>
         cases hk : e.isCancel <;>
-        simp [hp, he, hi, hT', hte, hm, hc, hk, St.caught, runForeverRaises, bind_apply, get_apply, pure_apply, raise_apply,
+        simp [hp, he, hi, hef, hT', hte, hm, hc, hk, St.caught, runForeverRaises, bind_apply, get_apply, pure_apply, raise_apply,
           tryExcept_apply, TrL.runForever_for1, hye, hyp, hze, hzp, hwe, hwp, hfe]
       | some e1 =>
         by_cases hm : (sc.envYield T1.leaveTry).mustCancel = true <;>
         by_cases hc : (sc.envYield T1.leaveTry).slowCleanup = true <;>
         cases hk : e.isCancel <;>
-        simp [hp, he, hi, hT', hte, hm, hc, hk, St.caught, runForeverRaises, bind_apply, get_apply, pure_apply, raise_apply,
+        simp [hp, he, hi, hef, hT', hte, hm, hc, hk, St.caught, runForeverRaises, bind_apply, get_apply, pure_apply, raise_apply,
           tryExcept_apply, TrL.runForever_for1, hye, hyp, hze, hzp, hwe, hwp, hfe]
 
 /-- a second `run_forever()` is refused before anything else happens: the model's `start` outside `notStarted` -/
@@ -740,8 +825,9 @@ theorem translated_errreg_run_forever_restart_refused (sc : RfScript) (s : TS) (
     cancellation was swallowed by a failing init task): the simulation is NOT entered, `_init_done` stays
     unset, the recorded error is raised after the clean-up -- a simulation with an error never runs -/
 theorem translated_errreg_run_forever_no_simulation_with_error (sc : RfScript) (s0 : St) (e1 : Err)
-    (hp : s0.phase = .notStarted) (he : s0.error = none) (hie : sc.initErr = none)
-    (hi : (sc.envInit { s0 with phase := .tryBlock, error := none, runWaiting := s0.runMode }).error = some e1)
+    (hp : s0.phase = .notStarted) (he : s0.error = none) (hie : sc.initErr = none) (hef : s0.earlyFail = false)
+    (hi : (sc.envInit { s0 with phase := .tryBlock, error := none, runWaiting := s0.runMode, earlyFail := false }).error = some e1)
+    (hif : (sc.envInit { s0 with phase := .tryBlock, error := none, runWaiting := s0.runMode, earlyFail := false }).earlyFail = false)
     (hy : ∀ s, (s.error.isSome → (sc.envYield s).error = s.error) ∧ (sc.envYield s).phase = s.phase)
     (hz : ∀ s, (s.error.isSome → (sc.envStop s).error = s.error) ∧ (sc.envStop s).phase = s.phase) :
     ∃ s', TrL.runForever (erfPrims sc) { st := s0 } = (s', .raise (.err e1)) ∧
@@ -754,9 +840,9 @@ theorem translated_errreg_run_forever_no_simulation_with_error (sc : RfScript) (
   have hwp := fun s h => (wake_sleep0 s h).2
   have hfe := fun s h => finish_cleanup s h
   unfold TrL.runForever
-  by_cases hm : (sc.envYield (sc.envInit { s0 with phase := .tryBlock, error := none, runWaiting := s0.runMode }).leaveTry).mustCancel = true <;>
-  by_cases hc : (sc.envYield (sc.envInit { s0 with phase := .tryBlock, error := none, runWaiting := s0.runMode }).leaveTry).slowCleanup = true <;>
-  simp [hp, he, hie, hi, hm, hc, bind_apply, get_apply, pure_apply, raise_apply,
+  by_cases hm : (sc.envYield (sc.envInit { s0 with phase := .tryBlock, error := none, runWaiting := s0.runMode, earlyFail := false }).leaveTry).mustCancel = true <;>
+  by_cases hc : (sc.envYield (sc.envInit { s0 with phase := .tryBlock, error := none, runWaiting := s0.runMode, earlyFail := false }).leaveTry).slowCleanup = true <;>
+  simp [hp, he, hie, hef, hi, hif, hm, hc, bind_apply, get_apply, pure_apply, raise_apply,
           tryExcept_apply, TrL.runForever_for1, hye, hyp, hze, hzp, hwe, hwp, hfe]
 
 /-- the model's `waitInitReply`, case "an error was recorded before the start" (the recorded observation): the
@@ -801,10 +887,10 @@ theorem translated_errreg_wait_init_after_failed_start (sc : RfScript) (env : Na
 theorem translated_errreg_wait_init_of_running_simulation (env : Nat → St → St) (s : TS) (b : Bool)
     (h : s.st.phase ≠ .notStarted) (hi : s.initDone = some b)
     (he : (env s.log.length s.st).error = none) (hd : (env s.log.length s.st).phase ≠ .done) (s0 : St) (h0 : s0.error = none)
-    (hr : s.cancelAt s.log.length = false) :
+    (h0f : s0.earlyFail = false) (hr : s.cancelAt s.log.length = false) :
     (TrE.waitInit (wiPrims env) s).2 = .next () ∧ waitInitReply s0 none = .ok := by
   rw [translated_errreg_wait_init_is_model env s h hr, hi]
-  simp [TS.await, he, hd, waitInitReply, h0]
+  simp [TS.await, he, hd, waitInitReply, h0, h0f]
 
 /-- non-vacuity of the hypotheses of `translated_errreg_run_forever_is_model_partial` and
     `translated_errreg_run_is_model`: a cancellation requested while the circuit is simulated ends run_forever with
@@ -815,7 +901,7 @@ example :
     (TrL.runForever (erfPrims sc) { st := {} }).2 = .raise (.err (.cancelled 0)) ∧
     (rfModel sc {}).phase = .done ∧ (rfModel sc {}).error = some (.cancelled 0) := by
   intro sc
-  have h := translated_errreg_run_forever_is_model_partial sc {} rfl rfl rfl (fun _ => rfl) (fun _ => rfl)
+  have h := translated_errreg_run_forever_is_model_partial sc {} rfl rfl rfl (fun _ => rfl) (fun _ _ => rfl)
     (fun _ => ⟨fun _ => rfl, rfl⟩) (fun _ => ⟨fun _ => rfl, rfl⟩)
   have hm : rfModel sc {} = { phase := .done, error := some (.cancelled 0), wake := [.sim] } := by rfl
   rw [h.1, hm]
@@ -838,6 +924,88 @@ example :
   have h3 : (runModel exampleEnv { runMode := true }).1.error = some (.cancelled 1) := by decide +kernel
   rw [h]
   exact ⟨by simp only [h1]; rfl, h2, h3⟩
+
+/-! #### `SBlock.event` (Gen/TranslatedDispatch.lean, translated for C11) and `init_sblock` (Gen/TranslatedInitSb.lean,
+     translated for C05) instantiated with the error register -/
+
+/-- the translated `SBlock.event` makes the model's classification: whatever the fault of the delivery -- an
+    exception of any family raised by the handler's own code, wrong parameters, an unknown type, an unknown event sent
+    by the handler -- `abort(<wrapped error>)` is called iff `Fault.fatal` (i.e. unless the `except EdzedUnknownEvent:
+    raise` clause or the one-level traceback applies), BEFORE the exception reaches the caller; the exception is
+    re-raised in every case and `_event_active` is reset -/
+theorem translated_errreg_event_classification (flt : Fault) (id fuel : Nat) (s : EvSt) (ha : s.active = false)
+    (hm : s.marker < 0 ∨ 2 ≤ s.marker) (b : Bool) :
+    TrD.event (evPrims flt id b) (fuel + 1) (faultEtype flt) () s =
+      ({ s with st := if flt.fatal then s.st.abort (.wrapped id) else s.st
+                dels := if flt.fatal then s.dels ++ [.wrapped id] else s.dels
+                active := false },
+       .raise (.raised flt.seen.1 flt.seen.2)) := by
+  have hg : ¬ ((0 : Int) ≤ s.marker ∧ s.marker < (2 : Int)) := by omega
+  unfold TrD.event TrD.event_loop1
+  cases flt with
+  | inHandler f =>
+    cases f <;>
+      simp [ha, hg, faultEtype, Fault.fatal, fatalSeen, Fault.seen, bind_apply, get_apply, pure_apply, raise_apply, ret_apply,
+        tryExcept_apply, tryFinally_apply]
+  | wrongParams =>
+    simp [ha, hg, faultEtype, Fault.fatal, fatalSeen, Fault.seen, bind_apply, get_apply, pure_apply, raise_apply, ret_apply,
+      tryExcept_apply, tryFinally_apply]
+  | unknownType =>
+    simp [ha, hg, faultEtype, Fault.fatal, fatalSeen, Fault.seen, bind_apply, get_apply, pure_apply, raise_apply, ret_apply,
+      tryExcept_apply, tryFinally_apply]
+  | nested =>
+    simp [ha, hg, faultEtype, Fault.fatal, fatalSeen, Fault.seen, bind_apply, get_apply, pure_apply, raise_apply, ret_apply,
+      tryExcept_apply, tryFinally_apply]
+
+/-- … hence the model's `handlerErr` IS what the translated `SBlock.event` does to the error register for a
+    handler that raises an exception of family `f`: same state, same deliveries -/
+theorem translated_errreg_event_handler_error_is_model (f : Family) (id fuel : Nat) (s : EvSt) (ha : s.active = false)
+    (hm : s.marker < 0 ∨ 2 ≤ s.marker) (hr : s.st.ready = true) (b : Bool) :
+    (TrD.event (evPrims (.inHandler f) id b) (fuel + 1) .known () s).1.st = (step s.st (.handlerErr id f)).1 ∧
+    (TrD.event (evPrims (.inHandler f) id b) (fuel + 1) .known () s).1.dels = s.dels ++ (step s.st (.handlerErr id f)).2.dels := by
+  have h := translated_errreg_event_classification (.inHandler f) id fuel s ha hm b
+  simp only [faultEtype] at h
+  rw [h]
+  cases hf : (Fault.inHandler f).fatal <;> simp [step, hr, hf]
+
+/-- **a failed initialisation step is never attempted again**: when `init_regular()` raises, the translated
+    `init_sblock` leaves the step marker NEGATIVE (the except clause does not touch it) and re-raises; and with a
+    negative marker every later `init_sblock` call -- from the synchronous passes or from an event -- does nothing -/
+theorem translated_errreg_failed_init_step_never_attempted_again (s : EvSt) (full : Bool)
+    (h : s.marker = 1 ∨ (s.marker = 0 ∧ full = true)) :
+    TrI.init_sblock (isPrims true) () full s =
+      ({ s with marker := -2, initCalls := s.initCalls + 1 }, .raise .initFailed) ∧
+    (∀ (t : EvSt) (fails full' : Bool), t.marker < 0 → TrI.init_sblock (isPrims fails) () full' t = (t, .next ())) := by
+  constructor
+  · unfold TrI.init_sblock
+    rcases h with h | ⟨h, rfl⟩ <;>
+      simp [h, bind_apply, get_apply, pure_apply, raise_apply, tryExcept_apply]
+  · intro t fails full' ht
+    have h0 : t.marker ≠ 0 := by omega
+    have h1 : t.marker ≠ 1 := by omega
+    unfold TrI.init_sblock
+    simp [h0, h1, bind_apply, get_apply, pure_apply, tryExcept_apply]
+
+/-- the model's `earlyInitFail`: an event reaches a block whose initialisation is not complete (marker 0 or 1) and
+    its `init_regular()` raises: the exception leaves the translated `SBlock.event` BEFORE the handler's try block --
+    nothing is handed to abort() (the register is untouched), the marker stays negative, `_event_active` is reset;
+    the start-up then finds the block uninitialised (the model's `start` with `earlyFail`) -/
+theorem translated_errreg_early_init_failure_reaches_caller_only (flt : Fault) (id fuel : Nat) (s : EvSt)
+    (ha : s.active = false) (hm : s.marker = 0 ∨ s.marker = 1) :
+    TrD.event (evPrims flt id true) (fuel + 1) (faultEtype flt) () s =
+      ({ s with marker := -2, initCalls := s.initCalls + 1, active := false }, .raise .initFailed) ∧
+    (∀ i, (step s.st (.earlyInitFail i)).1.error = s.st.error ∧ (step s.st (.earlyInitFail i)).2.dels = []) := by
+  constructor
+  · have hg : ((0 : Int) ≤ s.marker ∧ s.marker < (2 : Int)) := by omega
+    have hi := (translated_errreg_failed_init_step_never_attempted_again { s with active := false } true
+      (by rcases hm with h | h <;> simp [h])).1
+    unfold TrD.event TrD.event_loop1
+    cases flt <;>
+      simp [ha, hg, hi, faultEtype, bind_apply, get_apply, pure_apply, raise_apply, ret_apply, withCtx_apply,
+        tryExcept_apply, tryFinally_apply]
+  · intro i
+    simp only [step]
+    split <;> simp
 
 end ErrRegTie
 
